@@ -95,20 +95,26 @@ def MW.maybeExpectChar (w : MW) (c : Char) : Option MW :=
   | [] => none
   | ch :: _ => if eqIgnoreAsciiCase ch c then some (w.advance (skipped + 1)) else none
 
-/-- `find_lookahead_char_index(c)` (absolute index) -/
-def lookaheadScan (wanted : Char) : List Char → Nat → Bool → Nat → Nat → Option Nat
-  | [], _, _, _, _ => none
-  | c :: cs, idx, seen, paren, brace =>
-    if eqIgnoreAsciiCase c wanted && seen && paren == 0 && brace == 0 then some idx
-    else if c == '(' then lookaheadScan wanted cs (idx + 1) (seen || !isWhitespace c) (paren + 1) brace
+/-- `find_lookahead_char_index(c)` (absolute index); comments are skipped as a whole, as the tokenizer
+    does (fuel = number of characters) -/
+def lookaheadScan (wanted : Char) : Nat → List Char → Nat → Bool → Nat → Nat → Option Nat
+  | 0, _, _, _, _, _ => none
+  | _ + 1, [], _, _, _, _ => none
+  | fuel + 1, c :: cs, idx, seen, paren, brace =>
+    if c == ';' then
+      let n := (decideNextToken (c :: cs)).2
+      let n := if n == 0 then 1 else n
+      lookaheadScan wanted fuel ((c :: cs).drop n) (idx + n) seen paren brace
+    else if eqIgnoreAsciiCase c wanted && seen && paren == 0 && brace == 0 then some idx
+    else if c == '(' then lookaheadScan wanted fuel cs (idx + 1) (seen || !isWhitespace c) (paren + 1) brace
     else if c == ')' then
-      if paren == 0 then none else lookaheadScan wanted cs (idx + 1) (seen || !isWhitespace c) (paren - 1) brace
-    else if c == '{' then lookaheadScan wanted cs (idx + 1) (seen || !isWhitespace c) paren (brace + 1)
+      if paren == 0 then none else lookaheadScan wanted fuel cs (idx + 1) (seen || !isWhitespace c) (paren - 1) brace
+    else if c == '{' then lookaheadScan wanted fuel cs (idx + 1) (seen || !isWhitespace c) paren (brace + 1)
     else if c == '}' then
-      if brace == 0 then none else lookaheadScan wanted cs (idx + 1) (seen || !isWhitespace c) paren (brace - 1)
-    else lookaheadScan wanted cs (idx + 1) (seen || !isWhitespace c) paren brace
+      if brace == 0 then none else lookaheadScan wanted fuel cs (idx + 1) (seen || !isWhitespace c) paren (brace - 1)
+    else lookaheadScan wanted fuel cs (idx + 1) (seen || !isWhitespace c) paren brace
 
-def MW.findLookaheadCharIndex (w : MW) (c : Char) : Option Nat := lookaheadScan c w.vis w.pos false 0 0
+def MW.findLookaheadCharIndex (w : MW) (c : Char) : Option Nat := lookaheadScan c (w.vis.length + 1) w.vis w.pos false 0 0
 
 /-- `find_lookahead_char(pattern, at)`: the next exact part after `at`, skipping whitespace parts -/
 def findLookaheadChar : List RPart → Option Char
@@ -137,7 +143,7 @@ def matchWithRule (defs : List Ruledef) : Nat → Rule → List RPart → MW →
       | none => []
       | some w' => matchWithRule defs fuel rule rest w' consumeAll m
     | .whitespace =>
-      if !w.isOver && (tokenAt w.vis).kind != .Whitespace then []
+      if !w.isOver && (tokenAt w.vis).kind != .Whitespace && (tokenAt w.vis).kind != .Comment then []
       else matchWithRule defs fuel rule rest w consumeAll m
     | .param idx =>
       match (rule.params.getD idx ("", .unspecified)).2 with
